@@ -120,6 +120,9 @@ func mismatchSig(m Mismatch) string {
 	if m.Admission {
 		extra = ", conversion executed although not admissible (or the reverse)"
 	}
+	if m.Repeat {
+		extra += ", the expected change was applied a whole number of times more than once"
+	}
 	return fmt.Sprintf("%s differs from the reference model (expected causes: %s%s)", m.Aspect, strings.Join(uniq, ","), extra)
 }
 
